@@ -44,6 +44,8 @@ fn reps(class: &str) -> Vec<Vec<u8>> {
         "bslash" => vec![s("a\\tb"), s("C:\\temp"), s("back\\\\slash")],
         "ctrl" => vec![s("a\tb"), s("\x1b[1mbold\x1b[0m"), s("nul\0byte"), s("cr\rhere")],
         "bslash_ctrl" => vec![s("C:\\temp\x01"), s("a\\\tb")],
+        // a backslash together with a NON-ASCII character of category "other" (zero width space, BOM) and no ASCII control
+        "bslash_other" => vec![s("C:\\temp\u{200b}x"), s("\u{feff}a\\x41"), s("x\u{200d}\\")],
         "utf8" => vec![s("héllo"), s("日本")],
         "utf8_other" => vec![s("a\u{200b}b"), s("x\u{85}y")],
         "invalid_utf8" => vec![b"caf\xe9".to_vec(), b"\xff\xfe".to_vec()],
@@ -72,7 +74,14 @@ fn one(id: u64, v: &Value, seed: u64) -> Value {
             out.push(b'\n');
         }
     }
-    let command = if pick(seed, id * 13 + 5, 3) == 0 { "cmd arg \\\n  more".to_string() } else { "cmd arg".to_string() };
+    // the shell expression as the user typed it: one line, a continued line, a here-document with an EMPTY inner line,
+    // a line with trailing blanks
+    let command = match pick(seed, id * 13 + 5, 6) {
+        0 => "cmd arg \\\n  more".to_string(),
+        1 => "cmd <<EOT\n\ntext\nEOT".to_string(),
+        2 => "cmd arg  ".to_string(),
+        _ => "cmd arg".to_string(),
+    };
     let (format, config) = if fmt == "md" {
         (ParserType::Markdown, TestCaseConfig::default_markdown())
     } else {
